@@ -1403,6 +1403,26 @@ def correspondence(ctx):
             if e > 0 and float(np.max(np.abs(y - vQ))) <= tol + 4.0 * e and e <= 1e-6 * scale:
                 ok, used = True, "Q"
                 ctx.extra["illconditioned_envelope"] = ctx.extra.get("illconditioned_envelope", 0) + 1
+        if not ok and fn == "point_to_circle" and mQ[0] == "ok":
+            # exact tie of the axis test `|dip|^2 >= epsilon^2` (the special points of the generator sit ON the band edge:
+            # 1e-6 from the axis): the implementation's float evaluation of |dip|^2 and the exact one may fall on different
+            # sides; then the two answers are the axis branch (any circle point) and the general branch (the nearest one),
+            # whose distances agree to ~epsilon. Decided on the exact margin, not on the outputs.
+            try:
+                from fractions import Fraction as _Fr
+                xq = [_Fr(float(t)) for t in P1.p["x"]]
+                cq = [_Fr(float(t)) for t in P2.p["c"]]
+                nq = [_Fr(float(t)) for t in P2.p["n"]]
+                vq = [xq[i] - cq[i] for i in range(3)]
+                h = sum(vq[i] * nq[i] for i in range(3))
+                dq = [vq[i] - h * nq[i] for i in range(3)]          # the code's diff_in_plane, exactly
+                dip2 = sum(t * t for t in dq)
+                eps2 = _Fr(1e-6) * _Fr(1e-6)
+                if abs(dip2 - eps2) <= _Fr(1, 10 ** 6) * eps2 and abs(float(mQ[2][0]) - float(y[0])) <= 2e-6 * scale:
+                    ok, used = True, "Q"
+                    ctx.extra["axis_band_edge_ties"] = ctx.extra.get("axis_band_edge_ties", 0) + 1
+            except Exception:  # noqa
+                pass
         if mQ[0] == "ok":
             ctx.branch(fn, mQ[1])
         if mF[0] == "ok" and mQ[0] == "ok" and mF[1] != mQ[1]:
